@@ -1977,7 +1977,9 @@ func (schema *Schema) visitJSONObject(settings *schemaValidationSettings, value 
 
 			if f := settings.defaultsSet; f != nil && value[propName] == nil {
 				if dflt := propSchema.Value.Default; dflt != nil && !reqRO && !repWO {
-					value[propName] = dflt
+					// a copy: nested defaults are injected into this value further down,
+					// which must not write into the document's own default
+					value[propName] = deepcopy.Copy(dflt)
 					settings.onceSettingDefaults.Do(f)
 				}
 			}
